@@ -59,7 +59,7 @@ fn main() {
         sink.merge(struct_sweep(&run, &[&SIGNED_OLD], &big_so, 1, &sfx, 24, &no_extra));
     }
     // the same structures with other opaque contents (all zero, 00 ff.., leading zero before a high bit, all ff, 80 00..)
-    for style in [1u8, 2, 3, 4, 5, 6, 7, 8, 9] {
+    for style in [1u8, 2, 3, 4, 5, 6, 7, 8, 9, 10, 11] {
         use vcommon::en::with_fill_style as wfs;
         sink.merge(struct_sweep(&run, &[&DH_PARAMS], &wfs(style, || cat::dh_params(false)), run.tier.pick(0, 1), &sfx, 48, &no_extra));
         sink.merge(struct_sweep(&run, &[&ECDH_PARAMS, &EC_PARAMETERS], &wfs(style, cat::ecdh_params), run.tier.pick(0, 1), &sfx, 48, &no_extra));
@@ -168,6 +168,22 @@ fn main() {
         })
         .collect();
     sink.merge(struct_sweep(&run, &[&SIGNED, &SIGNED_OLD], &algs, 0, &sfx, 32, &no_extra));
+    // algorithm pair x signature size grid
+    let mut grid: Vec<W> = Vec::new();
+    for a in 0..=65535u32 {
+        for n in [0usize, 64, 65, 73, 256, 513] {
+            if a % 3 != (n % 3) as u32 && !(a >> 8 <= 8 && a & 0xff <= 8) {
+                continue;
+            }
+            let mut w = W::new();
+            w.u16(a as u16);
+            w.block(2, "sig_len", |w| {
+                w.fill(n, 0x30);
+            });
+            grid.push(w);
+        }
+    }
+    sink.merge(struct_sweep(&run, &[&SIGNED], &grid, 0, &sfx, 32, &no_extra));
 
     // every short string over a small alphabet on each entry point
     let a = Alpha::uniform(&[0x00, 0x01, 0x02, 0x03, 0x04, 0xff]);
